@@ -10,7 +10,14 @@ Local Open Scope N_scope.
 (* a logged read: reader, name, value-id, floor (number of installs known complete before the read began) *)
 Definition RL (r : N) (n : name) (v : N) (pos : N) : rd N := RD (N.to_nat r) n v (N.to_nat pos).
 
-Inductive case := Log (installs : list (name * N)) (log : list (rd N)).
+Inductive case :=
+| Log (installs : list (name * N)) (log : list (rd N))
+(* ... plus, per drained Updater, the sequence of notifications (polls that installed a new version of
+   its name) and takes (Updater.Get: was the value rebuilt?) observed in quiescent windows *)
+| LogW (installs : list (name * N)) (log : list (rd N)) (watches : list (name * list wstep)).
 
 Definition check (c : case) : bool :=
-  match c with Log installs log => reads_ok N.eqb installs log end.
+  match c with
+  | Log installs log => reads_ok N.eqb installs log
+  | LogW installs log watches => reads_ok N.eqb installs log && forallb (fun '(n, l) => watch_ok N n l) watches
+  end.
